@@ -5,7 +5,10 @@ import os, re, subprocess, sys, tempfile
 coq = os.path.join(os.path.dirname(os.path.abspath(__file__)), "..", "coq")
 p = sys.argv[1]
 src = open(os.path.join(coq, "Properties", p + ".v")).read()
-src = re.sub(r"From TauProofs Require .*?\.\n", "", src)
+def _keep(m):
+    mods = [x for x in m.group(1).split() if os.path.exists(os.path.join(coq, "Proofs", x + ".vo"))]
+    return ("From TauProofs Require %s.\n" % " ".join(mods)) if mods else ""
+src = re.sub(r"From TauProofs Require ([\w ]+)\.\n", _keep, src)
 src = re.sub(r"Proof\. exact .*?\. Qed\.", "Abort.", src)
 src = re.sub(r"^(Check|Print Assumptions) .*?\.\n", "", src, flags=re.M)
 d = tempfile.mkdtemp(dir="/var/tmp")
